@@ -301,3 +301,53 @@ Lemma score_mode_none_counterexample :
   answer none_sn copts_score_none none_q = Ok [1; 2] /\
   sem_ids none_q none_sn = [1].
 Proof. vm_compute. repeat split; reflexivity. Qed.
+
+(* ---------- run level, for the fragment search_exact is proved for ---------- *)
+From Bluge Require Import Search.SearchersProofsSnap Search.SearchersProofsExact.
+
+Lemma id_at_live : forall sn n d, In (n, d) (live_docs sn) -> id_at sn n = d_id d.
+Proof.
+  intros sn n d Hin. unfold id_at.
+  destruct (filter (fun p : Z * doc => fst p =? n) (live_docs sn)) as [| p l] eqn:E.
+  - exfalso. assert (Hf : In (n, d) (filter (fun p : Z * doc => fst p =? n) (live_docs sn))).
+    { apply filter_In. split; [exact Hin|]. simpl. apply Z.eqb_refl. }
+    rewrite E in Hf. destruct Hf.
+  - assert (Hp : In p (filter (fun p : Z * doc => fst p =? n) (live_docs sn))) by (rewrite E; left; reflexivity).
+    apply filter_In in Hp. destruct Hp as [Hp Hn]. apply Z.eqb_eq in Hn. destruct p as [n' d']. simpl in Hn. subst n'.
+    simpl. f_equal. eapply live_docs_unique; eauto.
+Qed.
+
+Lemma answer_ids : forall sn q, map (id_at sn) (sem_numbers q sn) = sem_ids q sn.
+Proof.
+  intros sn q. unfold sem_numbers, sem_ids. rewrite map_map.
+  apply map_ext_in. intros [n d] Hin. apply filter_In in Hin. destruct Hin as [Hin _]. simpl.
+  apply id_at_live. exact Hin.
+Qed.
+
+(* two well-formed layouts with the same logical content return the same ids (as multisets) for
+   every boolean query over term clauses *)
+Theorem layout_independent_matches_flat : forall sn1 sn2 musts shoulds nots ms,
+  wf_sn sn1 -> wf_sn sn2 -> 0 <= ms -> (musts <> [] \/ shoulds <> []) ->
+  (length shoulds <= 10)%nat -> (length nots <= 10)%nat ->
+  Permutation (logical sn1) (logical sn2) ->
+  exists ids1 ids2,
+    answer sn1 copts_plain (flatq musts shoulds nots ms) = Ok ids1 /\
+    answer sn2 copts_plain (flatq musts shoulds nots ms) = Ok ids2 /\ Permutation ids1 ids2.
+Proof.
+  intros sn1 sn2 musts shoulds nots ms W1 W2 Hms Hne Hs Hn HP.
+  unfold answer. rewrite (search_exact_flat sn1 musts shoulds nots ms W1 Hms Hne Hs Hn).
+  rewrite (search_exact_flat sn2 musts shoulds nots ms W2 Hms Hne Hs Hn). cbn [rbind].
+  eexists _, _. split; [reflexivity|]. split; [reflexivity|]. rewrite !answer_ids.
+  apply sem_ids_layout_independent. exact HP.
+Qed.
+
+(* the conjunction push-down on or off: the same answer (for the fragment both are proved for) *)
+Theorem optimisation_same_answer_flat : forall sn musts shoulds nots ms,
+  wf_sn sn -> 0 <= ms -> (musts <> [] \/ shoulds <> []) ->
+  (length shoulds <= 10)%nat -> (length nots <= 10)%nat ->
+  answer sn copts_default (flatq musts shoulds nots ms) = answer sn copts_plain (flatq musts shoulds nots ms).
+Proof.
+  intros sn musts shoulds nots ms W Hms Hne Hs Hn. unfold answer.
+  rewrite (search_exact_flat sn musts shoulds nots ms W Hms Hne Hs Hn).
+  rewrite (search_exact_flat_default sn musts shoulds nots ms W Hms Hne Hs Hn). reflexivity.
+Qed.
